@@ -2,7 +2,7 @@
 # merge_agent.sh <agent verif copy>: copy files an agent added/changed, except shared ones (listed for manual merge)
 A="$1"
 cd "$A" || exit 1
-rsync -a --itemize-changes --checksum \
+rsync -a --itemize-changes --ignore-existing \
   --exclude /build --exclude .lake --exclude /evidence --exclude /MANIFEST.json --exclude /lean/Driver/Main.lean \
   --exclude /tools/checklib.py --exclude /tools/props.py --exclude /check --exclude /AGENT_GUIDE.md --exclude /DESIGN.md \
   --exclude /known_findings.json --exclude /lean/NflVerif/Generated --exclude __pycache__ --exclude /lean/lake-manifest.json \
@@ -10,7 +10,9 @@ rsync -a --itemize-changes --checksum \
   --exclude /harness/ntt.cpp --exclude /lean/NflVerif/Proofs/NttRefine*.lean --exclude /lean/NflVerif/Properties/C0[12].lean \
   --exclude /tools/manifest_texts.d/C0[1236].json --exclude /setup.sh --exclude /tools/manifest_texts.json \
   ./ /verif/ | grep -v "^\.d\|^cd" 
-echo "--- shared files that differ (merge by hand):"
+echo "--- existing files that differ in the agent copy (NOT copied; merge by hand if the agent changed them):"
+rsync -a --dry-run --itemize-changes --checksum --existing --exclude /build --exclude .lake --exclude /evidence --exclude /MANIFEST.json --exclude __pycache__ --exclude /lean/NflVerif/Generated --exclude /lean/lake-manifest.json ./ /verif/ | grep "^>f" | cut -c13-
+echo "--- shared files:"
 for f in lean/Driver/Main.lean tools/checklib.py tools/props.py check lean/Driver/OpsH.lean lean/Driver/Proto.lean harness/common.hpp lean/lakefile.toml; do
   cmp -s "$A/$f" "/verif/$f" || echo "DIFF $f"
 done
